@@ -5,7 +5,7 @@ seeds="${1:-1 2 3}"; tier="${2:-quick}"
 props=$(/venv/bin/python -c "import json; print(' '.join(c['property_id'] for c in json.load(open('MANIFEST.json'))['checks']))")
 fail=0
 for s in $seeds; do for p in $props; do
-  out=$(VERIF_SEED=$s timeout 900 ./check $p --tier $tier 2>&1); rc=$?
+  out=$(VERIF_SEED=$s timeout 7200 ./check $p --tier $tier 2>&1); rc=$?
   if [ $rc -ne 0 ]; then echo "seed=$s $p rc=$rc :: $(echo "$out" | grep -v KNOWN | tail -2 | tr '\n' ' ')"; fail=1; fi
 done; done
 echo "runall done fail=$fail"
